@@ -10,6 +10,7 @@
 #include <adm/write.hpp>
 #include <adm/common_definitions.hpp>
 #include <regex>
+#include "perturb.hpp"
 
 namespace {
 
@@ -256,6 +257,23 @@ std::string do_rej(const std::vector<std::string>& t) {
   }
 }
 
+// pw <hex> <env> <dflt>: parse the bytes and write the document; the result is the length and a hash of the XML
+std::string do_pw(const std::vector<std::string>& t) {
+  std::string bytes = from_hex(t.at(1));
+  try {
+    std::istringstream in(bytes);
+    auto d = parseXml(in, popts(t.at(2)));
+    std::ostringstream o;
+    writeXml(o, d, wopts(t.at(2), t.at(3)));
+    std::string x = o.str();
+    uint64_t h = 1469598103934665603ULL;
+    for (unsigned char c : x) { h ^= c; h *= 1099511628211ULL; }
+    return "ok xml " + std::to_string(x.size()) + " " + std::to_string(h);
+  } catch (const std::exception& e) {
+    return "ok rejected " + sanitize(e.what());
+  }
+}
+
 // bindcd h d kind ty val ctr: gives the script name h to an element already in document d (common definitions)
 std::string do_bindcd(World& w, const std::vector<std::string>& t) {
   auto doc = w.doc(t.at(2));
@@ -276,6 +294,8 @@ std::string do_bindcd(World& w, const std::vector<std::string>& t) {
 
 bool run_xml_op(World& w, const std::vector<std::string>& t, std::string& r) {
   const std::string& c = t[0];
+  if (c == "pw") { r = do_pw(t); return true; }
+  if (c == "perturb") { perturb_set(static_cast<unsigned>(std::stoul(t.at(1)))); r = perturb_available() ? "ok" : "ok unavailable"; return true; }
   if (c == "p2w") { r = do_p2w(t); return true; }
   if (c == "rej") { r = do_rej(t); return true; }
   if (c == "commondefs") { addCommonDefinitionsTo(w.doc(t.at(1))); r = "ok"; return true; }
